@@ -18,7 +18,66 @@ import (
 	"strings"
 )
 
-const regVar = "checksumServiceContext"
+// the registry: the package-level variable holding (a pointer to) a struct with one sync mutex field and one map field;
+// found by shape, so that renaming it or its fields changes nothing
+var regVar, regMu, regCache = "checksumServiceContext", "mu", "cache"
+
+func findRegistry(f *ast.File) {
+	structs := map[string][2]string{} // type name -> (mutex field, map field)
+	for _, d := range f.Decls {
+		gd, ok := d.(*ast.GenDecl)
+		if !ok || gd.Tok != token.TYPE {
+			continue
+		}
+		for _, sp := range gd.Specs {
+			ts := sp.(*ast.TypeSpec)
+			st, ok := ts.Type.(*ast.StructType)
+			if !ok {
+				continue
+			}
+			mu, mp, n := "", "", 0
+			for _, fl := range st.Fields.List {
+				for _, nm := range fl.Names {
+					n++
+					switch t := fl.Type.(type) {
+					case *ast.SelectorExpr:
+						if exprStr(t) == "sync.RWMutex" || exprStr(t) == "sync.Mutex" {
+							mu = nm.Name
+						}
+					case *ast.MapType:
+						mp = nm.Name
+					}
+				}
+			}
+			if mu != "" && mp != "" && n == 2 {
+				structs[ts.Name.Name] = [2]string{mu, mp}
+			}
+		}
+	}
+	for _, d := range f.Decls {
+		gd, ok := d.(*ast.GenDecl)
+		if !ok || gd.Tok != token.VAR {
+			continue
+		}
+		for _, sp := range gd.Specs {
+			vs := sp.(*ast.ValueSpec)
+			if len(vs.Names) != 1 || len(vs.Values) != 1 {
+				continue
+			}
+			v := vs.Values[0]
+			if u, ok := v.(*ast.UnaryExpr); ok && u.Op == token.AND {
+				v = u.X
+			}
+			if cl, ok := v.(*ast.CompositeLit); ok {
+				if id, ok := cl.Type.(*ast.Ident); ok {
+					if fs, ok := structs[id.Name]; ok {
+						regVar, regMu, regCache = vs.Names[0].Name, fs[0], fs[1]
+					}
+				}
+			}
+		}
+	}
+}
 
 type lockFn struct {
 	name    string
@@ -58,7 +117,7 @@ func lockCall(e ast.Expr) (string, bool) {
 		return "", false
 	}
 	s, ok := c.Fun.(*ast.SelectorExpr)
-	if !ok || !isRegSel(s.X, "mu") {
+	if !ok || !isRegSel(s.X, regMu) {
 		return "", false
 	}
 	return s.Sel.Name, true
@@ -80,7 +139,7 @@ func (f *lockFn) lookup(x *ast.AssignStmt) bool {
 		return false
 	}
 	ix, ok := x.Rhs[0].(*ast.IndexExpr)
-	if !ok || !isRegSel(ix.X, "cache") {
+	if !ok || !isRegSel(ix.X, regCache) {
 		return false
 	}
 	if srcStr(ix.Index) != f.keyExpr {
@@ -142,7 +201,7 @@ func (f *lockFn) block(stmts []ast.Stmt, rest string) string {
 			}
 			lerr(x, "mutex method %s", m)
 		}
-		if c, ok := x.X.(*ast.CallExpr); ok && exprStr(c.Fun) == "delete" && len(c.Args) == 2 && isRegSel(c.Args[0], "cache") {
+		if c, ok := x.X.(*ast.CallExpr); ok && exprStr(c.Fun) == "delete" && len(c.Args) == 2 && isRegSel(c.Args[0], regCache) {
 			if srcStr(c.Args[1]) != f.keyExpr {
 				lerr(x, "%s deletes key %s, not the call's key %s", f.name, srcStr(c.Args[1]), f.keyExpr)
 			}
@@ -162,7 +221,7 @@ func (f *lockFn) block(stmts []ast.Stmt, rest string) string {
 			return "PLookup (" + tail() + ")"
 		}
 		if x.Tok == token.ASSIGN && len(x.Lhs) == 1 && len(x.Rhs) == 1 {
-			if ix, ok := x.Lhs[0].(*ast.IndexExpr); ok && isRegSel(ix.X, "cache") {
+			if ix, ok := x.Lhs[0].(*ast.IndexExpr); ok && isRegSel(ix.X, regCache) {
 				if srcStr(ix.Index) != f.keyExpr {
 					lerr(x, "%s stores under key %s, not the call's key %s", f.name, srcStr(ix.Index), f.keyExpr)
 				}
@@ -171,7 +230,7 @@ func (f *lockFn) block(stmts []ast.Stmt, rest string) string {
 				}
 				return "PStore (" + tail() + ")"
 			}
-			if isRegSel(x.Lhs[0], "cache") {
+			if isRegSel(x.Lhs[0], regCache) {
 				if c, ok := x.Rhs[0].(*ast.CallExpr); ok && exprStr(c.Fun) == "make" && len(c.Args) == 1 {
 					return "PClear (" + tail() + ")"
 				}
@@ -223,6 +282,7 @@ func writeLocks(root, path string) {
 	if err != nil {
 		panic(terr{token.NoPos, err.Error()})
 	}
+	findRegistry(f)
 	progs := map[string]string{}
 	for _, d := range f.Decls {
 		fd, ok := d.(*ast.FuncDecl)
@@ -276,7 +336,8 @@ func writeLocks(root, path string) {
 	}
 	var sb strings.Builder
 	sb.WriteString("(* GENERATED by /verif/translator (locks.go) from /repo/codec/checksum.go on every run — do not edit, not committed. *)\n")
-	sb.WriteString("From FP.Model Require Import Locks.\n\n")
+	sb.WriteString("From Coq Require Import Strings.String.\nFrom FP.Model Require Import Locks.\n\n")
+	fmt.Fprintf(&sb, "(* the package-level variable that holds the registry (found by its shape: a mutex and a map) *)\nDefinition registry_var : string := %s.\n\n", coqString(regVar))
 	for _, n := range []string{"code_registry", "code_registry_bad", "code_get", "code_remove", "code_clear"} {
 		p, ok := progs[n]
 		if !ok {
